@@ -606,6 +606,54 @@ func neutralTransform(src []byte, filename, kind string) ([]byte, int, error) {
 			}
 			return true
 		})
+	case "nest-and":
+		// if a && b { X }  →  if a { if b { X } }   (no else)
+		ast.Inspect(f, func(x ast.Node) bool {
+			s, ok := x.(*ast.IfStmt)
+			if !ok || s.Else != nil {
+				return true
+			}
+			be, ok := s.Cond.(*ast.BinaryExpr)
+			if !ok || be.Op != token.LAND {
+				return true
+			}
+			strip := func(e ast.Expr) ast.Expr {
+				for {
+					pe, ok := e.(*ast.ParenExpr)
+					if !ok {
+						return e
+					}
+					e = pe.X
+				}
+			}
+			inner := &ast.IfStmt{If: s.Body.Lbrace, Cond: strip(be.Y), Body: s.Body}
+			s.Cond = strip(be.X)
+			s.Body = &ast.BlockStmt{Lbrace: inner.If, List: []ast.Stmt{inner}, Rbrace: inner.Body.Rbrace}
+			n++
+			return true
+		})
+	case "merge-and":
+		// if a { if b { X } }  →  if a && b { X }   (neither has an else, the inner one no initialiser)
+		ast.Inspect(f, func(x ast.Node) bool {
+			s, ok := x.(*ast.IfStmt)
+			if !ok || s.Else != nil || len(s.Body.List) != 1 {
+				return true
+			}
+			t, ok := s.Body.List[0].(*ast.IfStmt)
+			if !ok || t.Else != nil || t.Init != nil {
+				return true
+			}
+			par := func(e ast.Expr) ast.Expr {
+				if b, ok := e.(*ast.BinaryExpr); ok && b.Op == token.LOR {
+					return &ast.ParenExpr{X: e}
+				}
+				return e
+			}
+			s.Cond = &ast.BinaryExpr{X: par(s.Cond), Op: token.LAND, Y: par(t.Cond)}
+			s.Body = t.Body
+			n++
+			return true
+		})
 	case "unelse":
 		// if [init;] c { …; return/break/continue/goto/panic } else { rest }  →  [init;] if c { … }; rest
 		// (what golint's indent-error-flow asks for). Applied to the site numbered onlySite (all sites when < 0).
